@@ -31,8 +31,11 @@ CHECKS = {
  "C08": ("exploration", "property-based testing over generated projects (tape-driven model-first generator, proptest shrinking), each compiled by a fresh process of the real CLI; exit status / signal oracle",
          "Generated valid projects of five feature tiers, single-fault mutants, raw token damage of schema / extension / sources and cyclic client fields are compiled by fresh isograph_cli processes; the process must exit 0 (iso.ts written) or 1 (diagnostics), never panic, abort or be killed by a signal. 1k projects quick, 80k thorough; recorded crash families are tolerated by root-cause signature only.",
          "The watch-mode clause is covered by C20's driver (panics there carry a C08-style signature); isograph_cli is the debug build of the working tree; a process exceeding 120 s is inconclusive.", "5/C08"),
+ "C10": ("exploration", "property-based testing with the repository's real TypeScript runtime (libs/isograph-react/src/core under node 22) as the oracle",
+         "Accepted generated programs x 3-5 generated conforming responses per entrypoint (values per type, nulls where nullable, lists of 0..3, a concrete type per abstract position, ids from a small pool so entities are reached along several paths): the real runtime normalizes the response with the entrypoint's normalization AST and reads the entrypoint reader and every component reader the runtime reaches; any MissingData or exception is a violation. 400 programs (about 1700 responses) quick, 20000 programs thorough.",
+         "Needs node 22 (exit 2 when absent). Project resolvers return null as in the generated sources; client-pointer targets and loadable fields are boundaries; responses come from a consistent world; five recorded root causes are excluded by construction in 4 of 5 programs and tolerated in the rest.", "5/C10"),
  "C12": ("exploration", "property-based testing + differential testing against the repository's TypeScript runtime executed under node 22",
-         "Unit level: generated selections and pairs through normalization_alias, the compiler's emitted argument text (hook) and the runtime's getNetworkResponseKey: injectivity on pairs, legality of every key as a GraphQL name, compiler key == runtime key; every writable selection is also round-tripped through the real iso parser. 62.5k cases quick, 1.6M thorough.",
+         "Unit level: generated selections and pairs through normalization_alias, the compiler's emitted argument text (hook) and the runtime's getNetworkResponseKey: injectivity on pairs, legality of every key as a GraphQL name, compiler key == runtime key; every writable selection is also round-tripped through the real iso parser; project level: in every selection set of every operation of 300 compiled programs equal response keys mean equal (field, arguments) and each key equals the runtime key of the matching normalization-AST node. 62.5k unit cases + 300 programs quick, 1.6M + 10000 thorough.",
          "Needs node 22 (exit 2 when absent). Astral characters / float / enum values are API-level inputs the iso lexer cannot write. Six recorded root causes are tolerated one signature at a time.", "5/C12"),
  "C13": ("exploration", "property-based testing over generated projects compiled in-process; every artifact parsed with swc's TypeScript parser / serde_json, imports resolved against the artifact set",
          "Accepted generated programs (hostile descriptions and strings, the whole option space) and the four checked-in projects: every .ts artifact parses as a TypeScript module without any (recovered) error, every .json parses, every relative import inside the artifact directory names a generated file, imports leaving it name an existing source file. 4k programs quick, 200k thorough.",
